@@ -15,18 +15,5 @@ CONSTANTS
   Loose = TRUE
   Guarded = FALSE
 CONSTRAINT TConstraint
-INVARIANT AtMostOneLink
-INVARIANT NoLeakedLink
-INVARIANT OneRequestOnAir
-INVARIANT NoNonceReuse
-INVARIANT AcceptOnceInOrder
-INVARIANT CountersInSync
-INVARIANT NoPlaintextRequest
-INVARIANT DeadEpochUnused
-INVARIANT ClosedAfterFailure
-INVARIANT FreshKeys
-INVARIANT KeysMatchLink
-INVARIANT ResumeOnlyStored
-INVARIANT LocksConsistent
 POSTCONDITION Accepted
 CHECK_DEADLOCK FALSE
